@@ -68,6 +68,7 @@ func cmdCheck(args []string) int {
 	vroot := fs.String("verif", "/verif", "verif root")
 	keep := fs.Bool("keep", false, "keep SMT work files")
 	noReplay := fs.Bool("noreplay", false, "do not run replays")
+	retCovers := fs.Bool("retcovers", true, "vacuity guard: every return point must be reachable under the assumptions (also in quick mode)")
 	fs.Parse(args)
 	repoRoot = *repo
 	verifRoot = *vroot
@@ -153,6 +154,7 @@ func cmdCheck(args []string) int {
 
 	var gens []*FnGen
 	var all []*Oblig
+	var untranslatable []*Oblig
 	var fnReports []fnReport
 	notes := map[string]bool{}
 	for _, t := range targets {
@@ -168,7 +170,15 @@ func cmdCheck(args []string) int {
 			}
 			gs, err := GenFuncAll(prog, f, fc, t.pc)
 			if err != nil {
-				return engineErr("outside the supported subset: %v", err)
+				// The function is under contract and its current body cannot be translated (a construct outside the verifier's
+				// subset, a loop without invariant that the contract does not know, a contract clause naming a vanished local):
+				// every obligation of the function is undischarged on this tree. Reported as ONE failed obligation of the property
+				// (no model, hence no-failing-input-found); on the unchanged tree this never happens for a claimed property.
+				o := &Oblig{Name: t.pc.PkgPath[strings.LastIndex(t.pc.PkgPath, "/")+1:] + "." + name + "/translation", Kind: "translation",
+					Fn: name, Status: "undischarged", Clause: "the function's body is inside the verifier's subset and matches its contract",
+					Output: err.Error(), PkgPath: t.pc.PkgPath}
+				untranslatable = append(untranslatable, o)
+				continue
 			}
 			for _, g := range gs {
 				if len(g.obls) == 0 {
@@ -223,7 +233,7 @@ func cmdCheck(args []string) int {
 		}
 	}
 	// vacuity guards: cover queries
-	covers := buildCovers(gens, *tier == "thorough")
+	covers := buildCovers(gens, *tier == "thorough" || *retCovers)
 	tSolve := time.Now()
 	workers := 6
 	if s := os.Getenv("VERIF_WORKERS"); s != "" {
@@ -248,6 +258,7 @@ func cmdCheck(args []string) int {
 			return engineErr("type-level frame generated no obligations")
 		}
 	}
+	all = append(all, untranslatable...)
 	solveS := time.Since(tSolve).Seconds()
 	if len(coverFail) > 0 {
 		return engineErr("vacuity: %s", strings.Join(coverFail, "; "))
@@ -474,7 +485,7 @@ func runCovers(cs []coverQ, workdir string, workers int) []string {
 			defer func() { <-sem }()
 			f := filepath.Join(workdir, sanitize(c.name)+".smt2")
 			os.WriteFile(f, []byte(c.script), 0o644)
-			r := raceSolvers(f, 5, false)
+			r := raceSolvers(f, 3, false)
 			ch <- res{c.name, r.verdict == "unsat"}
 		}()
 	}
